@@ -994,7 +994,7 @@ pub fn check_text(t: u32, input: &[char], with_font: bool, rec: &mut Rec) -> Cas
     Ok(())
 }
 
-fn check_case(case: &Case, rec: &mut Rec) -> CaseResult {
+pub fn check_case(case: &Case, rec: &mut Rec) -> CaseResult {
     let text = render(case);
     let fam_tags = family_tags(case.family);
     rec.class_if(!fam_tags.contains(&case.tag), "tag:foreign-or-arbitrary");
@@ -1302,4 +1302,90 @@ impl Property for C17 {
         small_strings(ctx, "bengali-small", INDIC_SMALL, if deep { 6 } else { 5 }, &[tag(b"beng"), tag(b"deva")]);
         small_strings(ctx, "kannada-small", KNDA_SMALL, if deep { 6 } else { 5 }, &[tag(b"knda"), tag(b"telu")]);
     }
+}
+
+// ------------------------------------------------------------------------------------------
+// libFuzzer: bytes → Case (the domain of `case_strategy(family)`, for any of the six families)
+// ------------------------------------------------------------------------------------------
+
+/// One mark of a `Seg::Marks` run from two bytes: the top 3 bits select the pool exactly as the
+/// top 3 bits of the strategy's u32 do (7 = every character of non-zero canonical class), the
+/// other 13 bits become the most significant bits of the index (`pick` reads the high bits; the
+/// largest pool has fewer than 8192 members, so every member is reachable).
+fn u_mark(u: &mut arbitrary::Unstructured<'_>) -> u32 {
+    let x: u16 = u.arbitrary().unwrap_or_default();
+    ((x as u32 >> 13) << 29) | ((x as u32 & 0x1FFF) << 16)
+}
+
+/// bytes → `Case`. Byte 0: family (the six generated sections `arabic` … `myanmar`); byte 1: tag
+/// selector 0..16 as in `case_strategy` (0 = any dispatched tag, 1 = arbitrary u32 tag, else a
+/// tag of the family) followed by one index byte (or four bytes for the arbitrary tag); then up
+/// to 8 segments, one per remaining group of bytes (an exhausted tape ends the list; reads past
+/// the end yield zeros, so every input is a case). Segment kinds carry the strategy's weights.
+pub fn case_from_bytes(data: &[u8]) -> arbitrary::Result<Case> {
+    let mut u = arbitrary::Unstructured::new(data);
+    let family = match u.int_in_range(0u8..=5).unwrap_or(0) {
+        0 => Family::Arabic,
+        1 => Family::Default,
+        2 => Family::ThaiLao,
+        3 => Family::Indic,
+        4 => Family::Khmer,
+        _ => Family::Myanmar,
+    };
+    let tag = match u.int_in_range(0u8..=15).unwrap_or(2) {
+        0 => {
+            let all = all_tags();
+            all[u.arbitrary::<u8>().unwrap_or_default() as usize % all.len()]
+        }
+        1 => u.arbitrary::<u32>().unwrap_or_default(),
+        _ => {
+            let l = family_tags(family);
+            l[u.arbitrary::<u8>().unwrap_or_default() as usize % l.len()]
+        }
+    };
+    let mut segs = Vec::new();
+    while !u.is_empty() && segs.len() < 8 {
+        // weights 3 : 1 : 4 : 4 : 1 : 1
+        segs.push(match u.int_in_range(0u8..=13).unwrap_or(0) {
+            0..=2 => {
+                // `pick` reads the high bits, the Indic block choice `r % 10` the low ones
+                let hi: u8 = u.arbitrary().unwrap_or_default();
+                let lo: u8 = u.arbitrary().unwrap_or_default();
+                Seg::Base((hi as u32) << 24 | lo as u32)
+            }
+            3 => Seg::Block(u.arbitrary().unwrap_or_default()),
+            4..=7 => {
+                let n = u.int_in_range(1usize..=30).unwrap_or(1);
+                Seg::Marks((0..n).map(|_| u_mark(&mut u)).collect())
+            }
+            8..=11 => Seg::Special(
+                u.int_in_range(0u8..=11).unwrap_or(0),
+                u.arbitrary().unwrap_or_default(),
+                u.arbitrary().unwrap_or_default(),
+            ),
+            12 => Seg::Any(u.arbitrary().unwrap_or_default()),
+            _ => Seg::Joiner(u.int_in_range(0u8..=8).unwrap_or(0)),
+        });
+    }
+    let case = Case { family, tag, segs };
+    if let Some(what) = domain_violation(&case) {
+        panic!("C17 case_from_bytes left the domain of case_strategy: {}", what);
+    }
+    Ok(case)
+}
+
+/// The bounds of `case_strategy` / `seg_strategy`, re-stated (asserted on every decoded case).
+pub fn domain_violation(c: &Case) -> Option<&'static str> {
+    if c.segs.len() > 8 {
+        return Some("more than 8 segments");
+    }
+    for s in &c.segs {
+        match s {
+            Seg::Marks(v) if v.is_empty() || v.len() > 30 => return Some("mark run outside 1..=30"),
+            Seg::Special(k, _, _) if *k >= 12 => return Some("special kind outside 0..12"),
+            Seg::Joiner(k) if *k >= 9 => return Some("joiner outside 0..9"),
+            _ => {}
+        }
+    }
+    None
 }
